@@ -29,7 +29,7 @@ OPTS = [dict(indent=i, sort_keys=s, ensure_ascii=a) for i in (None, 0, 2) for s 
 
 def plan(tier, seed):
     return {
-        "cases": 12000 if tier == "quick" else 120000,
+        "cases": 12000 if tier == "quick" else 60000,
         "hashseeds": [0] if tier == "quick" else [0, 1, 2, 3],
         "timeout_s": 240 if tier == "quick" else 2400,
         "rule": "case = program of profile c01 (random.Random('<seed>/C01/<idx>')) x sampled json.dump option sets "
